@@ -30,11 +30,12 @@ def instances(tier, seed):
     out = []
     structs = [(("e", "e"), (1, 2, 1)), (("e", "e", "e"), (1, 2, 2, 1)), (("e", "w", "e"), (1, 2, 2, 1))]
     if tier == "thorough":
-        structs += [(("e", "e", "e", "e"), (1, 2, 2, 2, 1)), (("e", "v", "e"), (1, 2, 2, 1))]
+        structs += [(("e", "e", "e", "e"), (1, 2, 2, 2, 1)), (("e", "v", "e"), (1, 2, 2, 1)), (("e", "e", "e"), (1, 3, 2, 1)), (("e", "e", "e", "e", "e"), (1, 2, 2, 2, 2, 1)),
+                    (("S", "S", "S"), (1, 2, 2, 1))]
     for kinds, bonds in structs:
         n = len(kinds)
         for idx in range(n):
-            for qn in cs.label_sets("mps", kinds, bonds, 1, idx, 1 if tier == "quick" else 2, seed):
+            for qn in cs.label_sets("mps", kinds, bonds, 1, idx, 1 if tier == "quick" else 4, seed):
                 for method in ("1site", "2site"):
                     for to_right in (True, False):
                         if method == "2site" and ((to_right and idx == n - 1) or ((not to_right) and idx == 0)):
@@ -53,7 +54,7 @@ def instances(tier, seed):
     # and the mask at EVERY local step of the real sweep
     sw = [(("e", "e"), (1, 2, 1)), (("e", "e", "e"), (1, 2, 2, 1))]
     if tier == "thorough":
-        sw += [(("e", "w", "e"), (1, 2, 2, 1)), (("e", "e", "e", "e"), (1, 2, 2, 2, 1))]
+        sw += [(("e", "w", "e"), (1, 2, 2, 1)), (("e", "e", "e", "e"), (1, 2, 2, 2, 1)), (("e", "e", "e", "e", "e"), (1, 2, 2, 2, 2, 1)), (("e", "v", "e"), (1, 2, 3, 1))]
     for kinds, bonds in sw:
         n = len(kinds)
         for method in ("1site", "2site"):
@@ -61,13 +62,13 @@ def instances(tier, seed):
                 for om in (False, True):
                     if om and n > 3:
                         continue
-                    qn = [[[0]]] + [[[0], [1]] for _ in range(n - 1)] + [[[0]]]      # every bond carries the labels 0 and 1: both blocks are populated everywhere
+                    qn = [[[0]]] + [[[(0, 1, 1, 0)[k_]] for k_ in range(bonds[i_])] for i_ in range(1, n)] + [[[0]]]      # every bond carries the labels 0 and 1: both blocks are populated
                     out.append(dict(op="sweep", kinds=kinds, bonds=bonds, qn=qn, qnidx=(n - 1 if start == "right" else 0), method=method, omega=om, obond=(1 if (om and n > 2) else 2),
                                     run_opts=dict(budget_s=120.0), label="optimize_mps sweep %s %s centre starts %s omega=%s" % ("".join(kinds), method, start, om), key="sweep/%s/%s" % (method, "omega" if om else "plain")))
     # tree optimiser: the real optimize_ttns recursion (two-site) with the eigensolver replaced by a contract stub
     trees = [((0, 0), (1, 1, 1), 1), ((0, 1), (1, 1, 1), 1), ((0, 0), (1, 1, 1), 2), ((0,), (2, 1), 1)]
     if tier == "thorough":
-        trees += [((0, 0, 0), (0, 1, 1, 1), 1), ((0, 1), (1, 1, 1), 2), ((0, 0, 1), (1, 1, 0, 1), 1)]
+        trees += [((0, 0, 0), (0, 1, 1, 1), 1), ((0, 1), (1, 1, 1), 2), ((0, 0, 1), (1, 1, 0, 1), 1), ((0, 0, 0), (0, 1, 1, 1), 2), ((0,), (2, 1), 2), ((0, 1, 1), (0, 1, 1, 1), 1)]
     for par, cnt, q in trees:
         out.append(dict(op="tree_sweep", parents=list(par), counts=list(cnt), qntot=q, label="optimize_ttns sweep parents=%s counts=%s sector %d" % (list(par), list(cnt), q), key="tree_sweep"))
     return out
